@@ -1093,6 +1093,14 @@ class Interp:
                 return ("raise", self.ev(st.exc, env, ctx) if st.exc is not None else NONE)
             if isinstance(st, ast.Continue):
                 return ("continue", env)
+            if isinstance(st, ast.With):
+                # the managed block is executed in place (a return / raise inside it leaves the function); the
+                # context expressions are evaluated for their guards, what __enter__ returns is opaque
+                for item in st.items:
+                    cm = self.ev_any(item.context_expr, env, ctx)
+                    if item.optional_vars is not None:
+                        self.assign(item.optional_vars, ("call", ("attr", self.as_term(cm), "__enter__"), (), ()), env, ctx)
+                return self.exec_block(list(st.body) + list(stmts[i + 1:]), env, ctx)
             if isinstance(st, ast.If):
                 test = self.ev(st.test, env, ctx)
                 if is_const(test):
